@@ -45,6 +45,9 @@ type c16Job struct {
 	Protocol string    `json:"protocol"`
 	Attrs    []c16Attr `json:"attrs"`
 	Time     string    `json:"time"` // absent | ms | s | ns | rfc3339 | rfc3339nano | float-s
+	// Companions: the request carries two more records (one before, one after the record under test) with attributes of
+	// their own (cattr, cnum); nothing of them may show up in the record under test
+	Companions bool `json:"companions,omitempty"`
 }
 
 var c16AttrAlphabet = []c16Attr{
@@ -148,6 +151,11 @@ func c16Leaves(attrs []c16Attr) map[string]interface{} {
 }
 
 // c16Send delivers the logical event through one protocol.
+// compJSON: a companion record (JSON protocols); its marker field never contains the marker of the record under test.
+func compJSON(tag string) string {
+	return `{"cmarker":"` + tag + `","cattr":"` + tag + `-v","cnum":77}`
+}
+
 func c16Send(w *kernel.Worker, j *c16Job, marker string) (*c16Sent, error) {
 	s := &c16Sent{kind: "log", leaves: c16Leaves(j.Attrs), hasTime: j.Time != "absent"}
 	js := map[string]string{"Content-Type": "application/json"}
@@ -195,7 +203,11 @@ func c16Send(w *kernel.Worker, j *c16Job, marker string) (*c16Sent, error) {
 			doc["timestamp"] = t
 		}
 		b, _ := json.Marshal(doc)
-		return check(post("ingest", "/elastic/_bulk", []byte(`{"index":{"_index":"c16esbulk"}}`+"\n"+string(b)+"\n"), js))
+		act := `{"index":{"_index":"c16esbulk"}}` + "\n"
+		if j.Companions {
+			return check(post("ingest", "/elastic/_bulk", []byte(act+compJSON("zb")+"\n"+act+string(b)+"\n"+act+compJSON("za")+"\n"), js))
+		}
+		return check(post("ingest", "/elastic/_bulk", []byte(act+string(b)+"\n"), js))
 	case "es-doc":
 		s.index = "c16esdoc"
 		if t, ok := tsJSON(); ok {
@@ -210,6 +222,11 @@ func c16Send(w *kernel.Worker, j *c16Job, marker string) (*c16Sent, error) {
 			rec["time"] = t
 		}
 		b, _ := json.Marshal(rec)
+		if j.Companions {
+			pre := `{"index":"c16hec","event":` + compJSON("zb") + `}`
+			suf := `{"index":"c16hec","event":` + compJSON("za") + `}`
+			return check(post("ingest", "/services/collector/event", []byte(pre+"\n"+string(b)+"\n"+suf), js))
+		}
 		return check(post("ingest", "/services/collector/event", b, js))
 	case "loki-proto", "loki-json":
 		s.index = "loki-index"
@@ -226,7 +243,14 @@ func c16Send(w *kernel.Worker, j *c16Job, marker string) (*c16Sent, error) {
 		line := "line of " + marker
 		s.leaves["line"] = line
 		if j.Protocol == "loki-json" {
-			body := map[string]interface{}{"streams": []interface{}{map[string]interface{}{"stream": labels, "values": [][]string{{strconv.FormatUint(nano, 10), line}}}}}
+			streams := []interface{}{map[string]interface{}{"stream": labels, "values": [][]string{{strconv.FormatUint(nano, 10), line}}}}
+			if j.Companions {
+				cs := func(tag string) interface{} {
+					return map[string]interface{}{"stream": map[string]string{"cmarker": tag, "cattr": tag + "-v", "cnum": "77"}, "values": [][]string{{strconv.FormatUint(nano, 10), "companion " + tag}}}
+				}
+				streams = []interface{}{cs("zb"), streams[0], cs("za")}
+			}
+			body := map[string]interface{}{"streams": streams}
 			b, _ := json.Marshal(body)
 			return check(post("ingest", "/loki/api/v1/push", b, js))
 		}
@@ -236,6 +260,13 @@ func c16Send(w *kernel.Worker, j *c16Job, marker string) (*c16Sent, error) {
 		}
 		req := &lokilog.PushRequest{Streams: []*lokilog.StreamAdapter{{Labels: "{" + strings.Join(lp, ", ") + "}",
 			Entries: []*lokilog.EntryAdapter{{Timestamp: timestamppb.New(time.Unix(0, int64(nano))), Line: line}}}}}
+		if j.Companions {
+			cs := func(tag string) *lokilog.StreamAdapter {
+				return &lokilog.StreamAdapter{Labels: fmt.Sprintf(`{cattr=%q, cmarker=%q, cnum="77"}`, tag+"-v", tag),
+					Entries: []*lokilog.EntryAdapter{{Timestamp: timestamppb.New(time.Unix(0, int64(nano))), Line: "companion " + tag}}}
+			}
+			req.Streams = []*lokilog.StreamAdapter{cs("zb"), req.Streams[0], cs("za")}
+		}
 		pb, err := proto.Marshal(req)
 		if err != nil {
 			return nil, err
@@ -256,6 +287,14 @@ func c16Send(w *kernel.Worker, j *c16Job, marker string) (*c16Sent, error) {
 			ScopeLogs: []*logpb.ScopeLogs{{Scope: &commonpb.InstrumentationScope{Name: "sc", Attributes: []*commonpb.KeyValue{{Key: "scopeattr", Value: anyValue("sv")}}},
 				LogRecords: []*logpb.LogRecord{{TimeUnixNano: nano, SeverityText: "WARN", SeverityNumber: 13, Body: anyValue("body of " + marker),
 					Attributes: kvs(j.Attrs, marker), TraceId: traceID, SpanId: spanID}}}}}}}
+		if j.Companions {
+			cr := func(tag string) *logpb.LogRecord {
+				return &logpb.LogRecord{TimeUnixNano: nano, SeverityText: "INFO", Body: anyValue("companion " + tag),
+					Attributes: []*commonpb.KeyValue{{Key: "cattr", Value: anyValue(tag + "-v")}, {Key: "cnum", Value: anyValue(int64(77))}}}
+			}
+			sl := req.ResourceLogs[0].ScopeLogs[0]
+			sl.LogRecords = []*logpb.LogRecord{cr("zb"), sl.LogRecords[0], cr("za")}
+		}
 		pb, err := proto.Marshal(req)
 		if err != nil {
 			return nil, err
@@ -274,6 +313,16 @@ func c16Send(w *kernel.Worker, j *c16Job, marker string) (*c16Sent, error) {
 			ScopeSpans: []*tracepb.ScopeSpans{{Spans: []*tracepb.Span{{TraceId: traceID, SpanId: spanID, Name: "op-" + marker, Kind: tracepb.Span_SPAN_KIND_SERVER,
 				StartTimeUnixNano: start, EndTimeUnixNano: start + 5_000_000, Attributes: kvs(j.Attrs, marker),
 				Status: &tracepb.Status{Code: tracepb.Status_STATUS_CODE_OK}}}}}}}}
+		if j.Companions {
+			cspan := func(tag string, id byte) *tracepb.Span {
+				sid := append([]byte{}, spanID...)
+				sid[7] = id
+				return &tracepb.Span{TraceId: traceID, SpanId: sid, Name: "companion-" + tag, Kind: tracepb.Span_SPAN_KIND_SERVER, StartTimeUnixNano: start, EndTimeUnixNano: start + 1_000_000,
+					Attributes: []*commonpb.KeyValue{{Key: "cattr", Value: anyValue(tag + "-v")}, {Key: "cnum", Value: anyValue(int64(77))}}, Status: &tracepb.Status{Code: tracepb.Status_STATUS_CODE_OK}}
+			}
+			ss := req.ResourceSpans[0].ScopeSpans[0]
+			ss.Spans = []*tracepb.Span{cspan("zb", 0x01), ss.Spans[0], cspan("za", 0x02)}
+		}
 		pb, err := proto.Marshal(req)
 		if err != nil {
 			return nil, err
@@ -301,6 +350,10 @@ func c16Send(w *kernel.Worker, j *c16Job, marker string) (*c16Sent, error) {
 			}
 			tags, _ := json.Marshal(s.labels)
 			body := fmt.Sprintf(`[{"metric":%q,"tags":%s,"timestamp":%d,"value":12.5}]`, s.metric, tags, ts)
+			if j.Companions {
+				body = fmt.Sprintf(`[{"metric":%q,"tags":{"cattr":"zb-v","cnum":"77"},"timestamp":%d,"value":1},{"metric":%q,"tags":%s,"timestamp":%d,"value":12.5},{"metric":%q,"tags":{"cattr":"za-v"},"timestamp":%d,"value":2}]`,
+					s.metric+"_cb", ts, s.metric, tags, ts, s.metric+"_ca", ts)
+			}
 			return check(post("ingest", "/otsdb/api/put", []byte(body), js))
 		case "prom-remote-write":
 			lbls := []prompb.Label{{Name: "__name__", Value: s.metric}}
@@ -308,6 +361,12 @@ func c16Send(w *kernel.Worker, j *c16Job, marker string) (*c16Sent, error) {
 				lbls = append(lbls, prompb.Label{Name: k, Value: s.labels[k]})
 			}
 			wr := &prompb.WriteRequest{Timeseries: []prompb.TimeSeries{{Labels: lbls, Samples: []prompb.Sample{{Value: 12.5, Timestamp: c16TimeMs}}}}}
+			if j.Companions {
+				cts := func(tag string) prompb.TimeSeries {
+					return prompb.TimeSeries{Labels: []prompb.Label{{Name: "__name__", Value: s.metric + "_c" + tag}, {Name: "cattr", Value: tag + "-v"}, {Name: "cnum", Value: "77"}}, Samples: []prompb.Sample{{Value: 1, Timestamp: c16TimeMs}}}
+				}
+				wr.Timeseries = []prompb.TimeSeries{cts("zb"), wr.Timeseries[0], cts("za")}
+			}
 			pb, err := wr.Marshal()
 			if err != nil {
 				return nil, err
@@ -320,6 +379,14 @@ func c16Send(w *kernel.Worker, j *c16Job, marker string) (*c16Sent, error) {
 			}
 			req := &colmetpb.ExportMetricsServiceRequest{ResourceMetrics: []*metpb.ResourceMetrics{{ScopeMetrics: []*metpb.ScopeMetrics{{Metrics: []*metpb.Metric{{Name: s.metric,
 				Data: &metpb.Metric_Gauge{Gauge: &metpb.Gauge{DataPoints: []*metpb.NumberDataPoint{{TimeUnixNano: nano, Attributes: attrs, Value: &metpb.NumberDataPoint_AsDouble{AsDouble: 12.5}}}}}}}}}}}}
+			if j.Companions {
+				cm := func(tag string) *metpb.Metric {
+					return &metpb.Metric{Name: s.metric + "_c" + tag, Data: &metpb.Metric_Gauge{Gauge: &metpb.Gauge{DataPoints: []*metpb.NumberDataPoint{{TimeUnixNano: nano,
+						Attributes: []*commonpb.KeyValue{{Key: "cattr", Value: anyValue(tag + "-v")}, {Key: "cnum", Value: anyValue("77")}}, Value: &metpb.NumberDataPoint_AsDouble{AsDouble: 1}}}}}}
+				}
+				sm := req.ResourceMetrics[0].ScopeMetrics[0]
+				sm.Metrics = []*metpb.Metric{cm("zb"), sm.Metrics[0], cm("za")}
+			}
 			pb, err := proto.Marshal(req)
 			if err != nil {
 				return nil, err
@@ -365,7 +432,7 @@ func c16Run(w *kernel.Worker, j *c16Job, rep *kernel.Report) (*Fail, error) {
 		return &Fail{FP: fp + "/" + j.Protocol, What: what}, nil
 	}
 	c16Normalize(j)
-	marker := fmt.Sprintf("mk%d", atomic.AddInt64(&c16Seq, 1))
+	marker := fmt.Sprintf("mk%dq", atomic.AddInt64(&c16Seq, 1))
 	before := time.Now().UnixMilli()
 	sent, err := c16Send(w, j, marker)
 	if err != nil {
@@ -412,6 +479,9 @@ func c16Run(w *kernel.Worker, j *c16Job, rep *kernel.Report) (*Fail, error) {
 		for k := range r.Labels {
 			if _, ok := sent.labels[k]; !ok && k != "__name__" {
 				rep.Add("extra_labels_seen", 1)
+				if k == "cattr" || k == "cnum" {
+					fs.Add("C16/foreign-field/"+j.Protocol, ctx+fmt.Sprintf(": the series carries label %s=%q, which belongs to another series of the same request (labels %v)", k, r.Labels[k], r.Labels))
+				}
 			}
 		}
 		return fs.Result(), nil
@@ -461,6 +531,15 @@ func c16Run(w *kernel.Worker, j *c16Job, rep *kernel.Report) (*Fail, error) {
 			}
 		}
 	}
+	// nothing of the other records of the same request
+	for c, v := range rec {
+		if v == nil {
+			continue
+		}
+		if c == "cattr" || c == "cnum" || c == "cmarker" || strings.HasSuffix(c, ".cattr") || strings.HasSuffix(c, ".cnum") || strings.HasSuffix(c, "_cattr") || strings.HasSuffix(c, ":cattr") {
+			fs.Add("C16/foreign-field/"+j.Protocol, ctx+fmt.Sprintf(": the stored event has %s=%s, a field of another record of the same request: %s", c, jstr(v), jstr(rec)))
+		}
+	}
 	// time
 	ts, _ := ObsInt(rec["timestamp"])
 	if j.Protocol == "otlp-traces" {
@@ -496,8 +575,8 @@ func C16() int {
 	rep := kernel.NewReport("C16", "exploration")
 	rep.Rule = "logical events = every subset of ≤ n attributes from {string, int, float, bool, nested map, list, negative int} × every way the protocol can carry the instant 2023-11-14T22:15:23.456Z " +
 		"(absent, ms, s, ns, RFC3339, RFC3339Nano, float seconds) × 10 protocol endpoints of the booted server (ES bulk, ES doc, Splunk HEC, Loki protobuf+snappy and JSON, OTLP logs, OTLP traces, OpenTSDB put, " +
-		"Prometheus remote write, OTLP metrics). The stored event is read back: each logical leaf must be present under a column whose name is or ends with its key path, with an equal value; the stored time must " +
-		"equal the carried time (second precision where the carried form has it), and arrival time only when none was carried. non-trivial = event carrying its own time and ≥1 non-string attribute"
+		"Prometheus remote write, OTLP metrics), each request alone and with two companion records of other content before and after it in the same request. The stored event is read back: each logical leaf must be present under a column whose name is or ends with its key path, with an equal value; the stored time must " +
+		"equal the carried time (second precision where the carried form has it), and arrival time only when none was carried; nothing of a companion record appears in it. non-trivial = event carrying its own time and ≥1 non-string attribute"
 	rep.Assume = []string{"Loki and the metric protocols carry text labels only: scalar attributes are compared as text, structured ones are not sent", "per-protocol renaming is allowed: a field may sit under any column whose name ends with its key path"}
 	d := &Driver[c16Job]{Rep: rep, Pool: serverPool(),
 		Budget: kernel.NewBudget(map[string]time.Duration{"quick": 150 * time.Second, "thorough": 30 * time.Minute}[rep.Tier]),
@@ -520,6 +599,9 @@ func C16() int {
 							continue
 						}
 						emit(c16Job{Protocol: p, Attrs: as, Time: tm})
+						if p != "es-doc" {
+							emit(c16Job{Protocol: p, Attrs: as, Time: tm, Companions: true})
+						}
 					}
 				}
 			}
